@@ -7,16 +7,26 @@ cd "$(dirname "$0")/.." || exit 2
 C=/root/work/micro_repo
 OUTS="--out lean/AioMySensors/Generated/Bodies.lean --stream-out lean/AioMySensors/Generated/StreamBodies.lean --codec-out lean/AioMySensors/Generated/CodecBodies.lean --mqtt-out lean/AioMySensors/Generated/MqttBodies.lean --persist-out lean/AioMySensors/Generated/PersistBodies.lean"
 MODS="AioMySensors.Lemmas.BodiesEq AioMySensors.Lemmas.StreamBodiesEq AioMySensors.Lemmas.CodecBodiesEq AioMySensors.Lemmas.MqttBodiesEq AioMySensors.Lemmas.PersistBodiesEq"
+# further ties registered in tools/ties.json
+XMODS=$(python3 -c "import json;print(' '.join(t['eq_mod'] for t in json.load(open('tools/ties.json'))))")
+xtranslate() { python3 -c "
+import json,subprocess,sys
+for t in json.load(open('tools/ties.json')):
+    r=subprocess.run(['/venv/bin/python',t['script'],'--repo',sys.argv[1],'--out',t['out'],'--snapshot',t['snapshot']],capture_output=True,text=True)
+    print(t['name']+': '+(r.stdout.strip().split('\\n')[-1] if r.stdout.strip() else 'exit %d'%r.returncode)[:110])
+" "$1" | tr '\n' ' '; }
 rm -rf "$C"; mkdir -p "$C"; (cd /repo && git archive HEAD) | tar -x -C "$C"
 (cd "$C" && git init -q && git add -A >/dev/null 2>&1 && git -c user.email=x@x -c user.name=x commit -qm base >/dev/null)
 for d in seeded/micro-refactors/*.diff; do
   git -C "$C" checkout -q -- .; git -C "$C" apply "$(pwd)/$d" || { echo "$d: does not apply"; continue; }
   /venv/bin/python tools/extract.py --repo "$C" --out lean/AioMySensors/Generated/Tables.lean --json /dev/null >/dev/null 2>&1
   t=$(/venv/bin/python tools/translate.py --repo "$C" $OUTS --snapshot tools/bodies_snapshot.json --json /dev/null | cut -c1-140)
-  if (cd lean && lake build $MODS >/tmp/micro.log 2>&1); then r="equalities hold"; else r="EQUALITY BROKEN: $(grep -m2 'error:' /tmp/micro.log | tr '\n' ' ' | cut -c1-200)"; fi
-  echo "$(basename "$d" .diff): $t -> $r"
+  x=$(xtranslate "$C")
+  if (cd lean && lake build $MODS $XMODS >/tmp/micro.log 2>&1); then r="equalities hold"; else r="EQUALITY BROKEN: $(grep -m2 'error:' /tmp/micro.log | tr '\n' ' ' | cut -c1-200)"; fi
+  echo "$(basename "$d" .diff): $t | $x-> $r"
 done
 rm -rf "$C" /tmp/micro.log
 /venv/bin/python tools/extract.py --repo /repo --out lean/AioMySensors/Generated/Tables.lean --json tools/tables.json | tail -1
 /venv/bin/python tools/translate.py --repo /repo $OUTS --snapshot tools/bodies_snapshot.json --json tools/bodies_status.json | cut -c1-60
-(cd lean && lake build $MODS 2>&1 | tail -1)
+xtranslate /repo; echo
+(cd lean && lake build $MODS $XMODS 2>&1 | tail -1)
